@@ -59,8 +59,13 @@ def mk_linkage_conformation(reference):
         conf = H.conformation('AVR', p=p, mol=mol)
         asp = mk_group('COOGroup', 'ASP', 10, 'CG', q=-1, p=p)
         asp.pka_value, asp.model_pka = ctx.real('asp_pka', 0, 10), 3.8
-        kind = ctx.choice('second_group', ['bridged-CYS', 'unlisted-CYS', 'free-CYS', 'backbone'])
-        if kind == 'backbone':
+        kind = ctx.choice('second_group', ['bridged-CYS', 'unlisted-CYS', 'free-CYS', 'backbone', 'twin-with-the-same-label'])
+        if kind == 'twin-with-the-same-label':
+            # a second titratable group whose label coincides with the first one's (two copies of a ligand in one chain,
+            # residues differing in insertion code only): both count, in the energy and in the charges
+            g2 = mk_group('COOGroup', 'ASP', 10, 'CG', q=-1, p=p)
+            g2.pka_value, g2.model_pka = ctx.real('twin_pka', 0, 10), 3.8
+        elif kind == 'backbone':
             g2 = mk_group('BBNGroup', 'ALA', 20, 'N', q=0, p=p)
             g2.titratable = False
         else:
